@@ -34,6 +34,11 @@ PROGRAMS = [
     'function f(a) { return function () { return b + a; }; } function g(b) { var a = b; return a; } x = a + b;',
     'function f() { try { } catch (e) { } return e; } function g(e, f) { try { } catch (f) { return e + f; } }',
     'function f() { function a() { return b; } var b; return a; } function g() { return a + b; }',
+    # functions with parameters and locals written directly inside a catch block; labels that share a spelling with a variable
+    'function run(items, cb) { var count = 0; try { go(); } catch (err) { items.forEach(function (a, b) { var c = a; cb(a, b, err, count, items, c); }); } }',
+    'function t() { try { } catch (e) { return function (x, y) { return function (z) { return x + y + z + e + t; }; }; } }',
+    'function poll(queue) { ready: while (queue.length) { if (ready) break ready; queue.pop(); } }',
+    'function o() { var done = 0; function i() { done: for (;;) { done = 1; continue done; } } return i; }',
 ]
 
 
@@ -226,6 +231,16 @@ def main(run, tier):
         else:
             run.failed(name, 'E2/tables', kind, dict(kind=kind, got=seq(kind), want=want), observed=repr(got),
                        required='scope markers in ES5 order: %r' % want, replayed=True)
+    # closed world: no other node kind declares, resolves or opens a scope (labels, property names, members are never renamed)
+    for kind in sorted(defs):
+        if kind in expect:
+            continue
+        sk = seq(kind)
+        extra_m = [x for x in sk if x.startswith('Declare') or x in ('Resolve', 'PushScope', 'PopScope', 'PushCatch', 'PopCatch')]
+        if extra_m:
+            run.failed('O-scope[%s has no scope markers]' % kind, 'E2/tables', kind, dict(kind=kind, got=sk), observed='%s: %r' % (kind, extra_m),
+                       required='only function, variable, parameter, catch and identifier forms take part in scoping (ES5 10.4.3, 12.14, 13)', replayed=True)
+    run.discharged('O-scope[no other definition declares, resolves or opens a scope]', 'E2/tables', 'exec', 0.0, detail='%d definitions' % len(defs))
     for kind in ('PropIdentifier',):
         s = seq(kind)
         ok = 'Resolve' not in s and not any(x.startswith('Declare') for x in s)
